@@ -43,12 +43,13 @@ QVftSets == {<<None, None, None, None>>, <<None, 2, None, None>>, <<1, None, 4, 
 QEnumSets == {<<None, None, None>>, <<3, None, None>>, <<None, 7, None>>, <<0 - 2, None, 5>>}
 
 MkT(fs, size) ==
-  [TypeDef("T", "pub", [i \in DOMAIN fs |-> Field(fs[i][1], "pub", <<>>, FT(fs[i][2]), fs[i][3], fs[i][2] = "V")])
-     EXCEPT !.size = size, !.align = IF \E i \in DOMAIN fs : fs[i][2] = "V" THEN None ELSE 4]
+  [TypeDef("T", "pub", [i \in DOMAIN fs |-> Field(fs[i][1], "pub", IF i % 2 = 1 THEN <<" field doc">> ELSE <<>>,
+                                                  FT(fs[i][2]), fs[i][3], fs[i][2] = "V")])
+     EXCEPT !.doc = <<" the type">>, !.size = size, !.align = IF \E i \in DOMAIN fs : fs[i][2] = "V" THEN None ELSE 4]
 MkV(vs) ==
   [TypeDef("V", "pub", <<Field("w", "pub", <<>>, TCPtr(TNm("u8")), None, FALSE)>>)
      EXCEPT !.vft = Vft(vs[4], <<Func("f1", "pub", <<>>, <<ArgM>>, TNone, None, vs[1], ""),
-                                 Func("f2", "pub", <<>>, <<ArgC, Arg("a", TNm("u32"))>>, TNm("u32"), None, vs[2], ""),
+                                 Func("f2", "pub", <<" second slot">>, <<ArgC, Arg("a", TNm("u32"))>>, TNm("u32"), None, vs[2], ""),
                                  Func("f3", "priv", <<>>, <<ArgM>>, TNone, None, vs[3], "")>>)]
 EVal(x) == IF x = None THEN NumNone ELSE NumInt(x)
 MkE(es) == EnumDef("E", "pub", TNm("i32"), <<Variant("A", EVal(es[1]), FALSE), Variant("B", EVal(es[2]), FALSE), Variant("C", EVal(es[3]), FALSE)>>)
